@@ -230,7 +230,18 @@ class DLTypeContext:
             )
 
             try:
-                expected_result = dimension_expression.evaluate(self.tensor_shape_map)
+                expected_results = [dimension_expression.evaluate(self.tensor_shape_map)]
+                if (
+                    dimension_expression.identifier in self.tensor_shape_map
+                    and dimension_expression.is_expression
+                    and not dimension_expression.is_identifier
+                    and not dimension_expression.is_literal
+                ):
+                    # a named expression (i.e. c=a+b) whose name is already established
+                    # must match the established value and the value of its expression
+                    expected_results.append(
+                        dimension_expression.evaluate(self.tensor_shape_map, use_cached=False)
+                    )
             except KeyError as e:
                 missing_ref = e.args[0]
                 raise _errors.DLTypeInvalidReferenceError(
@@ -239,13 +250,14 @@ class DLTypeContext:
                     current_context=self.tensor_shape_map,
                 ) from e
 
-            if expected_result != actual_shape[dim_idx]:
-                raise _errors.DLTypeShapeError(
-                    tensor_name=tensor_arg_name,
-                    index=dim_idx,
-                    expected_shape=expected_result,
-                    actual=actual_shape[dim_idx],
-                )
+            for expected_result in expected_results:
+                if expected_result != actual_shape[dim_idx]:
+                    raise _errors.DLTypeShapeError(
+                        tensor_name=tensor_arg_name,
+                        index=dim_idx,
+                        expected_shape=expected_result,
+                        actual=actual_shape[dim_idx],
+                    )
 
             if dimension_expression.identifier not in self.tensor_shape_map:
                 self.tensor_shape_map[dimension_expression.identifier] = actual_shape[dim_idx]
